@@ -1,6 +1,7 @@
 import Eliot.Properties.C12
 import Eliot.Proofs.Handover
 import Eliot.Proofs.HandoverFix
+import Eliot.Proofs.HandoverOrder
 #print axioms Sys.C12.trim1000_trim
 #print axioms Sys.C12.bufPhase_basic
 #print axioms Sys.C12.buffered_until_first_add
@@ -13,6 +14,8 @@ import Eliot.Proofs.HandoverFix
 #print axioms Eliot.Conc.HandoverFix.handover_no_loss
 #print axioms Eliot.Conc.HandoverFix.handover_no_overtake
 #print axioms Eliot.Conc.HandoverFix.handover_drain_exclusive
+#print axioms Eliot.Conc.HandoverFix.handover_per_thread_fifo
+#print axioms Eliot.Conc.HandoverFix.handover_pre_first
 #print axioms Eliot.Conc.Handover.handover_race_witness
 #print axioms Eliot.Conc.Handover.handover_no_loss_false
 #print axioms Eliot.Conc.Handover.handover_race_witness_empty_list
